@@ -10,7 +10,8 @@ CLAIMED = {
  'C01': ('exploration',
          'Seeded exploration of watch-event streams through the real watcher/worker/scheduler stack in a closed loop; '
          'per-object no-overlap, order, exactly-once and no-loss oracles against what the watch stack yielded, plus the '
-         'worker-limit independence bound. The retire-at-arrival race is hit by snapping deliveries onto the idle deadline.',
+         'worker-limit independence bound. The retire-at-arrival race is hit by snapping deliveries onto the idle deadline; '
+         'idle_timeout=0 included (the run must settle).',
          'DESIGN.md section 5 / C01',
          'reference = events yielded by watching.infinite_watch (tap); FakeCluster semantics; sampled schedules'),
  'C02': ('exploration',
@@ -89,7 +90,8 @@ CLAIMED = {
  'C14': ('exploration',
          'Pre-existing objects with and without last-handled state / unfinished progress, resume handlers with failure scripts, '
          'reconnects, 410 re-listings, edits around the resume cycle, restarts; per (process, object, handler): at most one '
-         'completed run, eligible objects get it, ineligible never.',
+         'completed run (sub-handlers included), eligible objects get it, ineligible never: not objects being deleted without '
+         'opt-in, not after the resuming phase of the process (label-filtered resume handlers, late label edits).',
          'DESIGN.md section 5 / C14',
          'eligibility is reconstructed from the first view a process had of the object'),
  'C15': ('exploration',
@@ -108,7 +110,8 @@ CLAIMED = {
  'C17': ('exploration',
          'Two indexed kinds and a plain one, index functions scripted per (object, call), colliding keys, re-keying, filter '
          'toggles, deletions, interleaved initial listings; index snapshots taken by a probe handler are compared with a '
-         'dictionary reference model, and the first change handler/daemon/timer call must follow every initial listing+indexing.',
+         'dictionary reference model, and the first change handler/daemon/timer call must follow every initial listing+indexing '
+         '(per kind and served namespace); with a worker limit the gate must still open (known finding).',
          'DESIGN.md section 5 / C17',
          'snapshots are compared at instants without an indexing step in flight and at quiescence'),
  'C19': ('exploration',
